@@ -97,7 +97,12 @@ def write_traceback(logger=None, exc_info=None):
     if exc_info is None:
         exc_info = sys.exc_info()
     typ, exception, tb = exc_info
-    traceback = "".join(_traceback_no_io.format_exception(typ, exception, tb))
+    try:
+        traceback = "".join(_traceback_no_io.format_exception(typ, exception, tb))
+    except Exception:
+        # E.g. the standard library tests the truth value of the exceptions it
+        # formats, which an application's exception class may not support.
+        traceback = "eliot: unknown, formatting the traceback raised exception"
     _writeTracebackMessage(logger, typ, exception, traceback)
 
 
